@@ -228,6 +228,8 @@ macro_rules! set_node_state {
             "\tset_node_state {} from {:?} to {:?}",
             $node.job_id, $node.state, $new_state
         );
+        #[cfg(tyberiusprime_pypipegraph2_verif)]
+        verif_log_transition(&$node.job_id, &$node.state, &$new_state);
         match ($node.state, $new_state) {
             (JobState::Always(_), JobState::Always(_)) |
             (JobState::Output(_), JobState::Output(_)) |
@@ -943,6 +945,12 @@ impl<T: PPGEvaluatorStrategy> PPGEvaluator<T> {
 
             for idx in candidates.iter() {
                 debug!("removed leaf ephemeral {}", self.jobs[*idx].job_id);
+                #[cfg(tyberiusprime_pypipegraph2_verif)]
+                verif_log_transition(
+                    &self.jobs[*idx].job_id,
+                    &self.jobs[*idx].state,
+                    &JobState::Ephemeral(JobStateEphemeral::FinishedSkipped),
+                );
                 self.dag.remove_node(*idx);
                 self.jobs[*idx].state = JobState::Ephemeral(JobStateEphemeral::FinishedSkipped);
                 ephemerals.remove(idx);
@@ -1163,6 +1171,8 @@ impl<T: PPGEvaluatorStrategy> PPGEvaluator<T> {
     fn process_signals(&mut self, depth: u32) -> Result<(), PPGEvaluatorError> {
         debug!("");
         debug!("Process signals, depth {}", depth);
+        #[cfg(tyberiusprime_pypipegraph2_verif)]
+        crate::verif::note_depth(depth);
         let res = self.inner_process_signals(depth);
         debug!("Leaving process signals, {}", depth);
         res
@@ -2586,5 +2596,78 @@ impl<T: PPGEvaluatorStrategy> PPGEvaluator<T> {
             self.signals.push_back(signal)
         }
         debug!("done adding root signals\n");
+    }
+}
+
+#[cfg(tyberiusprime_pypipegraph2_verif)]
+fn verif_kind_of(state: &JobState) -> JobKind {
+    match state {
+        JobState::Always(_) => JobKind::Always,
+        JobState::Output(_) => JobKind::Output,
+        JobState::Ephemeral(_) => JobKind::Ephemeral,
+    }
+}
+
+#[cfg(tyberiusprime_pypipegraph2_verif)]
+fn verif_log_transition(job_id: &str, from: &JobState, to: &JobState) {
+    crate::verif::log_transition(crate::verif::Transition {
+        job_id: job_id.to_string(),
+        from: format!("{:?}", from),
+        to: format!("{:?}", to),
+        from_kind: verif_kind_of(from),
+        to_kind: verif_kind_of(to),
+        from_finished: from.is_finished(),
+        to_finished: to.is_finished(),
+        from_failed: from.is_failed(),
+        to_failed: to.is_failed(),
+    });
+}
+
+#[cfg(tyberiusprime_pypipegraph2_verif)]
+impl<T: PPGEvaluatorStrategy> PPGEvaluator<T> {
+    /// Read-only view of the evaluator for the verification monitors.
+    pub fn verif_snapshot(&self) -> crate::verif::Snapshot {
+        let mut ready: Vec<String> = self.jobs_ready_to_run.iter().cloned().collect();
+        ready.sort();
+        let mut cleanup: Vec<String> = self.jobs_ready_for_cleanup.iter().cloned().collect();
+        cleanup.sort();
+        crate::verif::Snapshot {
+            jobs: self
+                .jobs
+                .iter()
+                .map(|j| crate::verif::JobSnap {
+                    job_id: j.job_id.clone(),
+                    kind: verif_kind_of(&j.state),
+                    state: format!("{:?}", j.state),
+                    finished: j.state.is_finished(),
+                    failed: j.state.is_failed(),
+                    upstream_failed: j.state.is_upstream_failure(),
+                    history_output: j.history_output.clone(),
+                })
+                .collect(),
+            edges: self
+                .dag
+                .all_edges()
+                .map(|(a, b, w)| crate::verif::EdgeSnap {
+                    up: self.jobs[a].job_id.clone(),
+                    down: self.jobs[b].job_id.clone(),
+                    required: format!("{:?}", w.required),
+                    invalidated: format!("{:?}", w.invalidated),
+                })
+                .collect(),
+            ready,
+            cleanup,
+            pending_signals: self.signals.len(),
+            started: match self.already_started {
+                StartStatus::NotStarted => "NotStarted",
+                StartStatus::Running => "Running",
+                StartStatus::Finished => "Finished",
+            },
+        }
+    }
+
+    /// Number of jobs the evaluator knows (cheap, for large graphs).
+    pub fn verif_job_count(&self) -> usize {
+        self.jobs.len()
     }
 }
